@@ -86,9 +86,12 @@ def gen_redir(rng, fds, nc):
             path = 4
         return ("f", n, k, path)
     if r < 0.62:
-        return ("d", n, rng.random() < 0.75, rng.choice(fds))
-    if r < 0.72:
-        return ("c", n, rng.random() < 0.7)
+        src = rng.choice([0, 1, 1, 2, 2]) if rng.random() < 0.8 else rng.choice(fds)
+        return ("d", n, rng.random() < 0.75, src)
+    if r < 0.70:
+        if n is not None and n < 3 and rng.random() < 0.6:
+            n = rng.choice([3, 4, 5])
+        return ("c", n if n is not None or rng.random() < 0.3 else rng.choice([3, 4]), rng.random() < 0.7)
     if r < 0.80:
         return ("b", path, rng.random() < 0.4)
     if r < 0.84:
@@ -227,7 +230,9 @@ class Render:
                 body = "; ".join(self.cmd(b) for b in c[3])
                 s = head + body + "; }"
             elif c[1] == "s":
-                s = "( " + "; ".join(self.cmd(b) for b in c[3]) + " )"
+                # `( (` is kept apart from the arithmetic command `((`: brush reads "( ( x ) )" as arithmetic (not this property)
+                first = ":; " if c[3] and c[3][0][0] == "G" and c[3][0][1] == "s" else ""
+                s = "( " + first + "; ".join(self.cmd(b) for b in c[3]) + " )"
             else:
                 s = "for i in 1 2; do " + "; ".join(self.cmd(b) for b in c[3]) + "; done"
             rs = self.redirs(c[2])
@@ -261,7 +266,8 @@ def brush_msgs(d):
         ap = name if name.startswith("/") else os.path.join(d, name)
         texts[(1, p)] = "failed to redirect to %s: No such file or directory (os error 2)" % ap
         texts[(2, p)] = "failed to redirect to %s: File exists (os error 17)" % ap
-    texts[(3, 0)] = "invalid redirection target"
+    for p in NAMES:
+        texts[(3, p)] = "invalid redirection target"
     texts[(20, 0)] = "i/o error: I/O write error: standard output not available"
     texts[(21, 0)] = "i/o error: cannot write to stdin"
     texts[(22, 0)] = "i/o error: Bad file descriptor (os error 9)"
@@ -284,7 +290,6 @@ def bash_msgs(d, argv0="/usr/bin/bash"):
         texts[(1, p)] = "%s: No such file or directory" % name
         texts[(2, p)] = "%s: cannot overwrite existing file" % name
         texts[(3, p)] = "%s: ambiguous redirect" % name
-    texts[(3, 0)] = "ambiguous redirect"
     for k in (20, 21, 22, 23):
         texts[(k, 0)] = "echo: write error: Bad file descriptor"
     texts[(24, 0)] = ""
@@ -359,6 +364,9 @@ def run_shell(shell_argv, case, d, bindir, executable=None):
             res[name] = (True, open(path, "rb").read().decode("utf-8", "replace"))
         else:
             res[name] = (False, "")
+    if executable:
+        for name in ("out", "err", "a", "b", "c"):
+            res[name] = (res[name][0], re.sub(r"environment: line \d: ", "environment: line 1: ", res[name][1]))
     extra = sorted(x for x in os.listdir(d) if x not in ("a", "b", "c", ".obs"))
     res["extra"] = extra
     res["status"] = status
@@ -384,12 +392,12 @@ def parse_model(line):
     def files(j):
         return {n: (f[j + 2 * k] == "1", f[j + 2 * k + 1]) for k, n in enumerate(("out", "err", "a", "b", "c"))}
     return {"model": files(i + 1), "model_fds": f[i + 11], "spec": files(i + 13), "spec_fds": f[i + 23],
-            "flags": [x == "1" for x in f[i + 25:i + 30]]}
+            "flags": [x == "1" for x in f[i + 25:i + 31]]}
 
 
 FLAG_IDS = ["KF-C10-andgreater-ignores-noclobber", "KF-C10-compound-redirect-failure-aborts",
             "KF-C10-exec-leaks-enclosing-redirections", "KF-C10-std-stream-dup-inherits-same-number",
-            "KF-C10-closed-std-descriptor-inherited"]
+            "KF-C10-closed-std-descriptor-inherited", "KF-C10-selfdup-of-closed-descriptor"]
 
 
 def obs_equal(code, want):
@@ -623,7 +631,7 @@ def canon_tokens(fields, ndocs):
 
 def eval_here_cases(ctx, cases):
     model = ctx.model("c10_here", [here_fields(c) for c in cases])
-    code = ctx.impl("heredoc", [[c["input"]] for c in cases])
+    code = ctx.impl("c10_heredoc", [[c["input"]] for c in cases])
     mism, specv = [], []
     stats = {"ok": 0, "unterminated": 0}
     for c, ml, cl in zip(cases, model, code):
